@@ -358,7 +358,7 @@ int main(int argc, char** argv) {
         for (size_t k = 0; k < 4; k++) tasks.push_back({8, 0, k, 0});                                              // length / count fields close to 2^64, 2^63, 2^32 in skipped and read positions
         static const unsigned char A64[] = {0x00, 0x01, 0x17, 0x18, 0x19, 0x1a, 0x1b, 0x1c, 0x1f, 0x20, 0x37, 0x38, 0x3b, 0x3f, 0x40, 0x41, 0x57, 0x58, 0x59, 0x5a, 0x5b, 0x5f, 0x60, 0x61, 0x78, 0x7b, 0x7f, 0x80, 0x81, 0x82, 0x98, 0x9b, 0x9f,
                                             0xa0, 0xa1, 0xb8, 0xbb, 0xbf, 0xc0, 0xc1, 0xd8, 0xdb, 0xdf, 0xe0, 0xf4, 0xf5, 0xf6, 0xf7, 0xf8, 0xf9, 0xfa, 0xfb, 0xfc, 0xff, 0x02, 0x03, 0x05, 0x0a, 0x2a, 0x43, 0x63, 0x83, 0xa2, 0xc2};
-        static const uint64_t BV[] = {0, 1, 23, 24, 255, 256, 65535, 65536, 0xffffffffULL, 0x100000000ULL, 0x7fffffffffffffffULL, 0x8000000000000000ULL, 0xffffffffffffffffULL};
+        static const uint64_t BV[] = {0, 1, 23, 24, 255, 256, 65535, 65536, 1ULL << 24, 1ULL << 27, 1ULL << 30, 0xffffffffULL, 0x100000000ULL, 0x7fffffffffffffffULL, 0x8000000000000000ULL, 0xffffffffffffffffULL};   // incl. mid-range lengths: an allocation sized by such a field exceeds the 64 MiB cap without needing 2^32
         auto run_one = [&](const std::string& desc, const std::string& bytes, Result& R) {
             set_note("desc=" + desc + ";hex=" + (bytes.size() <= 3800 ? hex(bytes) : std::string("<long>")));
             std::string o = consume::all(bytes);
